@@ -42,7 +42,9 @@ func c14StmtNode(depth int) ipld.Node {
 		op = basicnode.NewInt(1)
 	}
 	arg := func(tag string) ipld.Node {
-		switch vChoose(tag+"_kind", 5) {
+		switch vChoose(tag+"_kind", 6) {
+		case 5: // a well-formed statement (so that quantifier / connective bodies are valid even without nesting)
+			return c14List(basicnode.NewString("=="), basicnode.NewString(".a"), basicnode.NewInt(1))
 		case 0:
 			return basicnode.NewString(c14SelTexts[vChoose(tag+"_sel", len(c14SelTexts))])
 		case 1:
